@@ -1,9 +1,46 @@
 package main
 
+import (
+	"fmt"
+	"runtime"
+	"strings"
+	"unicode"
+)
+
 func init() {
 	groups["Txtar"] = func(g *gen) {
 		g.emitBytes("marker", "txtar", "marker")
 		g.emitBytes("marker_end", "txtar", "markerEnd")
 		g.emitBytes("newline_marker", "txtar", "newlineMarker")
+	}
+	// The white-space tables behind unicode.IsSpace (used by strings.TrimSpace), taken
+	// from the standard library this program is compiled with -- the same toolchain
+	// compiles the runner and /repo's code.  unicode.IsSpace answers Latin-1 from a
+	// switch statement and everything above from unicode.White_Space: both are dumped,
+	// the first by asking the library for every Latin-1 code point.
+	groups["Unicode"] = func(g *gen) {
+		var lat []string
+		for r := rune(0); r <= unicode.MaxLatin1; r++ {
+			if unicode.IsSpace(r) {
+				lat = append(lat, fmt.Sprint(int(r)))
+			}
+		}
+		fmt.Fprintf(&g.buf, "(* unicode.IsSpace on Latin-1 (r <= 0xFF), %s *)\nDefinition latin1_space : list N := [%s]%%N.\n\n",
+			runtime.Version(), strings.Join(lat, "; "))
+		var rs []string
+		for _, x := range unicode.White_Space.R16 {
+			rs = append(rs, fmt.Sprintf("(%d, %d, %d)", x.Lo, x.Hi, x.Stride))
+		}
+		for _, x := range unicode.White_Space.R32 {
+			rs = append(rs, fmt.Sprintf("(%d, %d, %d)", x.Lo, x.Hi, x.Stride))
+		}
+		if len(rs) == 0 || len(lat) == 0 {
+			g.fail("unicode.White_Space is empty")
+			return
+		}
+		fmt.Fprintf(&g.buf, "(* unicode.White_Space: (lo, hi, stride) of R16 then R32, %s *)\nDefinition white_space_ranges : list (N * N * N) :=\n  [%s]%%N.\n\n",
+			runtime.Version(), strings.Join(rs, ";\n   "))
+		fmt.Fprintf(&g.buf, "(* unicode.MaxLatin1, utf8.RuneError, utf8.RuneSelf, unicode.MaxRune *)\nDefinition max_latin1 : N := %d%%N.\nDefinition rune_error : N := %d%%N.\nDefinition rune_self : N := %d%%N.\nDefinition max_rune : N := %d%%N.\n\n",
+			unicode.MaxLatin1, 0xFFFD, 0x80, unicode.MaxRune)
 	}
 }
